@@ -2,7 +2,7 @@ package tls
 
 // zzRefIsGREASE16: RFC 8701 — 0x0A0A, 0x1A1A, ..., 0xFAFA.
 func zzRefIsGREASE16(v uint16) bool {
-	return v&0x0f0f == 0x0a0a && v>>8 == v&0xff
+	return verifAnd(v&0x0f0f == 0x0a0a, v>>8 == v&0xff)
 }
 
 //verif:harness C04 boring_grease_value unwind=8
